@@ -279,6 +279,29 @@ class Runner:
         self.structural(n, depth)
         self.lab.tag("replace_with-on-" + ("subtree" if p is not None else ("root" if was_att else "detached")))
 
+    def op_replace_with_twin_inside(self, s: int) -> None:
+        """x.replace_with(S) where a descendant of the detached subtree S carries x's id (a detached
+        content twin): the new root would take over an id that is already used inside its own subtree.
+        The library may refuse (documented error) or carry it out consistently - the invariants decide."""
+        from pyoak.legacy.error import ASTNodeReplaceWithError
+
+        w = self.w
+        S = w.sel(s, lambda x: x.detached and w.attachable(x) and any(
+            type(d).__name__ in ("LLeaf", "LSub") and "_" not in d.id for d in E.subtree(x)[1:]))
+        if S is None:
+            return
+        d = next(d for d in E.subtree(S)[1:] if type(d).__name__ in ("LLeaf", "LSub") and "_" not in d.id)
+        kw = {"w": d.w} if type(d).__name__ == "LSub" else {}
+        x = type(d)(v=d.v, origin=d.origin, create_detached=True, **kw)
+        if x.id != d.id:
+            return
+        w.hold(x)
+        self.lab.tag("replace_with-new-subtree-contains-receiver-id")
+        try:
+            x.replace_with(S)
+        except ASTNodeReplaceWithError:
+            self.lab.tag("refused")
+
     def op_replace_with_none(self, s: int) -> None:
         w = self.w
         n = w.sel(s, lambda x: not x.detached and (x.parent is None or x.parent_field.name in ("items", "lst", "opt", "un", "oseq", "extra")
@@ -491,6 +514,7 @@ def st_program(ctx: Ctx):
         st.tuples(st.just("replace_seq"), s, st.lists(s, max_size=2), small), st.tuples(st.just("replace_seq"), s, st.lists(s, max_size=2), small),
         st.tuples(st.just("replace_with"), s, s), st.tuples(st.just("replace_with"), s, s),
         st.tuples(st.just("replace_with_none"), s),
+        st.tuples(st.just("replace_with_twin_inside"), s),
         st.tuples(st.just("duplicate"), s, st.booleans()),
         st.tuples(st.just("transform_visitor"), s, small),
         st.tuples(st.just("transformer"), s, small),
